@@ -180,6 +180,34 @@ func (c *Ctx) checkIntersect() {
 				return
 			}
 		}
+		if p, ok := core.Strip(recv).(*ssa.Parameter); ok && definedness && depth == 0 {
+			// a definedness test moved into a small helper (`noneIfInvalid(mode)`): when every caller
+			// passes a computed value, it is the same test on that value
+			idx := -1
+			for i, q := range fn.Params {
+				if q == p {
+					idx = i
+				}
+			}
+			callers := c.callersOf(fn)
+			all := idx >= 0 && len(callers) > 0
+			for _, cs := range callers {
+				args := cs.Site.Common().Args
+				if cs.Site.Common().IsInvoke() || idx >= len(args) {
+					all = false
+					break
+				}
+				switch c.modeRecvClass(args[idx]) {
+				case "local", "phi", "extract", "load", "value":
+				default:
+					all = false
+				}
+			}
+			if all {
+				sites = append(sites, vsite{fn, pos, pred, "value", false})
+				return
+			}
+		}
 		cls := c.modeRecvClass(recv)
 		if c.pairCall(recv) {
 			cls = "pair"
@@ -301,15 +329,30 @@ func (c *Ctx) checkIntersect() {
 			pairStruct = true
 			return
 		}
-		f0, b0 := core.LoadedField(core.Strip(ret.Results[0]))
-		f1, b1 := core.LoadedField(core.Strip(ret.Results[1]))
-		if f0 == wantF && f1 == givenF && sameValue(b0, b1, 0) {
-			return
+		// named results assigned in both branches merge pairwise: the two merges sit in one block and
+		// are compared edge by edge
+		var pairOK func(v0, v1 ssa.Value, d int) bool
+		pairOK = func(v0, v1 ssa.Value, d int) bool {
+			p0, isP0 := core.Strip(v0).(*ssa.Phi)
+			p1, isP1 := core.Strip(v1).(*ssa.Phi)
+			if isP0 && isP1 && p0.Block() == p1.Block() && len(p0.Edges) == len(p1.Edges) && d < 3 {
+				for i := range p0.Edges {
+					if !pairOK(p0.Edges[i], p1.Edges[i], d+1) {
+						return false
+					}
+				}
+				return len(p0.Edges) > 0
+			}
+			f0, b0 := core.LoadedField(core.Strip(v0))
+			f1, b1 := core.LoadedField(core.Strip(v1))
+			if f0 == wantF && f1 == givenF && sameValue(b0, b1, 0) {
+				return true
+			}
+			return f0 == wu && f1 == gu
 		}
-		if f0 == wu && f1 == gu {
-			return
+		if !pairOK(ret.Results[0], ret.Results[1], 0) {
+			okPair = false
 		}
-		okPair = false
 	})
 	if pairStruct {
 		// struct{want, given}: at every return field 0 is a want and field 1 a given of one record (or the unions)
@@ -644,6 +687,41 @@ func (c *Ctx) checkP2PMask() {
 			isMask := func(x, y ssa.Value) bool {
 				a, ok := core.Strip(x).(*ssa.BinOp)
 				return ok && a.Op == token.AND && (core.IsConstOf(cp2p)(a.Y) || core.IsConstOf(cp2p)(a.X)) && core.IsConstOf(appr)(y)
+			}
+			// the mask passed in: `clip := func(requested, mask) { requested &= mask; ... |= ModeApprove }`
+			// applied with ModeCP2P at a call site
+			maskParam := func(x, y ssa.Value) *ssa.Parameter {
+				a, ok := core.Strip(x).(*ssa.BinOp)
+				if !ok || a.Op != token.AND || !core.IsConstOf(appr)(y) {
+					return nil
+				}
+				if p, ok := core.Strip(a.Y).(*ssa.Parameter); ok {
+					return p
+				}
+				if p, ok := core.Strip(a.X).(*ssa.Parameter); ok {
+					return p
+				}
+				return nil
+			}
+			mp := maskParam(b.X, b.Y)
+			if mp == nil {
+				mp = maskParam(b.Y, b.X)
+			}
+			if mp != nil {
+				idx := -1
+				for i, q := range fn.Params {
+					if q == mp {
+						idx = i
+					}
+				}
+				for _, cs := range c.callersOf(fn) {
+					args := cs.Site.Common().Args
+					if idx >= 0 && !cs.Site.Common().IsInvoke() && idx < len(args) && core.IsConstOf(cp2p)(args[idx]) {
+						n++
+						r.OK("C07.5-p2p-mask", fmt.Sprintf("%s: (x & mask) | ModeApprove applied with ModeCP2P #%d", fk(cs.Caller), n), c.pos(cs.Site), "")
+						r.Func(fk(fn))
+					}
+				}
 			}
 			if isMask(b.X, b.Y) || isMask(b.Y, b.X) {
 				n++
